@@ -1,6 +1,7 @@
 package main
 
 import (
+	"github.com/spf13/cobra"
 	"encoding/json"
 	"strings"
 
@@ -12,6 +13,7 @@ import (
 type exportIn struct {
 	Meta   fmtMeta    `json:"meta"`
 	Values []fmtValue `json:"values"` // null = nil slice
+	Execute bool      `json:"execute"` // the import side goes through ActionExecute on an embedded command (via "shell" only)
 	Via    string     `json:"via"`    // "export" (InvokedAction.export, keeps uid) | "shell" (value("export"), the `_carapace export` path)
 }
 
@@ -53,6 +55,12 @@ func runExportRT(raw json.RawMessage) interface{} {
 	}
 	json.Unmarshal([]byte(doc), &probe)
 	imported := invokeSafe(carapace.ActionImport([]byte(doc)), carapace.Context{})
+	if in.Execute && in.Via == "shell" {
+		// the same completion served by an embedded command and fetched with ActionExecute
+		cmd := &cobra.Command{Use: "emb", Run: func(*cobra.Command, []string) {}}
+		carapace.Gen(cmd).PositionalAnyCompletion(carapace.VerifAction(meta, values))
+		imported = invokeSafe(carapace.ActionExecute(cmd), carapace.Context{Args: []string{"x"}}) // second position: no sub-command names mixed in
+	}
 	return map[string]interface{}{"doc": doc, "version": probe.Version, "imported": imported}
 }
 
@@ -90,7 +98,14 @@ func genExportRT(r *rng, tier string) interface{} {
 	for i := 0; i < r.intn(3); i++ {
 		in.Meta.Messages = append(in.Meta.Messages, text(10))
 	}
-	in.Meta.Nospace = pick(r, []string{"", "/", "/=", "*", "é", "\"\\"})
+	in.Meta.Nospace = pick(r, []string{"", "/", "/=", "*", "é", "\"\\", "\x01", "\x7f/", "\v", "\U000f0000", "\u2028"})
+	if in.Via == "shell" && r.chance(35) {
+		in.Execute = true
+		if r.chance(15) && len(in.Values) > 0 {
+			// a document of more than 64 KiB
+			in.Values[0].Description = strings.Repeat("long description ", 4500)
+		}
+	}
 	if r.chance(40) {
 		in.Meta.Usage = text(10)
 	}
